@@ -137,6 +137,47 @@ def run_greedy_small(key):
     return ok(outcome=f'{K},{F},{chunk}', evals=n, states=n, transitions=n * (F - 1))
 
 
+def run_integer_masks(key):
+    """binary / count masks stored in an integer dtype (disjoint activity patterns, equal in every bin): the same
+    consistency as for float masks, and the same mapping as for the float copy of the mask."""
+    pa = _pa()
+    K, F, T, dt, seed = key['K'], key['F'], key['T'], key['dtype'], key['seed']
+    perms = list(itertools.permutations(range(K)))
+    r = A.rng(seed, 'c16int', K, F, T)
+    owner = np.arange(T) % K
+    r.shuffle(owner)
+    base = np.zeros((K, F, T), dtype=np.dtype(dt))
+    base[owner, :, np.arange(T)] = 1 if dt == 'int8' else 7       # binary mask / counts
+    n = 0
+    for trial in range(6):
+        fld = [0] * F if trial == 0 else list(r.integers(0, len(perms), size=F))
+        if trial:
+            # DHTV domain: 70 % of the first segment share one order
+            fld[: max(1, F // 2)] = [fld[0]] * max(1, F // 2)
+        mask, min_ = permute(base, fld, perms)
+        mask = np.ascontiguousarray(mask.astype(base.dtype))
+        for name in ('greedy', 'dhtv'):
+            for metric in ('cos', 'euclidean'):
+                if name == 'greedy':
+                    al = pa.GreedyPermutationAlignment(similarity_metric=metric)
+                else:
+                    al = pa.DHTVPermutationAlignment(stft_size=2 * (F - 1), segment_start=0,
+                                                     segment_width=max(3, F // 2), segment_shift=max(1, F // 6),
+                                                     main_iterations=20, sub_iterations=2, similarity_metric=metric)
+                try:
+                    m = np.asarray(al.calculate_mapping(mask))
+                    mf = np.asarray(al.calculate_mapping(mask.astype(float)))
+                except Exception as e:  # noqa
+                    return viol(f'{name}({metric}) raised {e!r} for a {dt} mask')
+                good, comp = consistent(min_, m)
+                if not good:
+                    return viol(f'{name}({metric}): class order not consistent for a {dt} mask (field {fld})')
+                if not np.array_equal(m, mf):
+                    return viol(f'{name}({metric}): mapping of a {dt} mask differs from the mapping of its float copy')
+                n += 1
+    return ok(outcome=f'{K},{F},{dt}', evals=n, states=n, transitions=n * F)
+
+
 def large_cuts(F):
     return sorted({1, 2, F // 7, F // 3, F // 2, F - F // 3, F - 2, F - 1})
 
@@ -468,6 +509,13 @@ def subchecks(tier, seed):
                 yield (K, F, 12, chunk, per, seed)
     subs.append(Sub('greedy_all_fields', ('K', 'F', 'T', 'chunk', 'per', 'seed'), gs_cases, run_greedy_small,
                     bound=dict(shapes=small, fields='all K!^F')))
+
+    def int_cases():
+        for K in (2, 3):
+            for F in (9, 33):
+                for dt in ('int8', 'int32', 'uint8'):
+                    yield (K, F, 12, dt, seed)
+    subs.append(Sub('integer_dtype_masks', ('K', 'F', 'T', 'dtype', 'seed'), int_cases, run_integer_masks))
 
     def gl_cases():
         for K in (2, 3, 4):
